@@ -70,7 +70,7 @@ func nsOfElem(t *Term) *Term {
 	return nil
 }
 
-func checkPodsFilters(c *Ctx) {
+func checkPodsFilters(c *Ctx, orderOnly bool) {
 	rule := "T-SHAPE(PodsFilter)"
 	for _, k := range podsFilterSiblings {
 		fn := c.mustFunc(k.rel, "PodsFilter")
@@ -146,6 +146,9 @@ func checkPodsFilters(c *Ctx) {
 			c.check(ok, rule, name+"/comparator-(namespace,name)", c.P.fnPos(cl), "", name+": the sort comparator is not the total order (namespace, then name) on the sources")
 		} else {
 			c.fail(rule, name+"/comparator-(namespace,name)", pos, "no sort comparator closure found")
+		}
+		if orderOnly {
+			continue
 		}
 		// (c) elements
 		nsOK, nsDetail := true, ""
